@@ -1053,10 +1053,23 @@ var qClassFields = []string{"Accept", "Accept-Charset", "Accept-Language", "Acce
 // non-ASCII, and "<>\^`{|}) percent-encoded and everything else — existing escapes, sub-delims — left as it
 // is (the RFC 3987 §3.1 mapping). This is the reference the field "names"; url.Parse's own re-encoding of such a
 // value also escapes "!'()*" and turns "%2F" into a slash, which names another URI.
+//
+// Only up to the query: a query is kept byte for byte on the request side (url.Parse leaves RawQuery as written,
+// net/http sends it as written, and the key of a request URL holds those bytes — raw "|" and "%7C" are different
+// query bytes, C03), so a field value and a request URL with the same spelling name the same resource only if the
+// field value's query is taken as written too (fifth hunt: `Location: /list?ids=1|2`).
 func uriBytes(s string) string {
 	var b strings.Builder
+	end := strings.IndexAny(s, "?#")
+	if end < 0 {
+		end = len(s)
+	}
 	for i := 0; i < len(s); i++ {
 		c := s[i]
+		if i >= end {
+			b.WriteByte(c)
+			continue
+		}
 		if c <= 0x20 || c >= 0x7f || strings.IndexByte("\"<>\\^`{|}", c) >= 0 {
 			fmt.Fprintf(&b, "%%%02X", c)
 		} else {
